@@ -259,6 +259,8 @@ def k_collective_impl(src: Path) -> str:
             if "write_patches" in qual:
                 continue          # MPI catalog creation: sub-communicator roles, see module docstring
             rows.append((f"{rel.removeprefix('yaw/')}:{qual}", traces["root"], traces["worker"]))
+            import symex
+            symex.TOUCHED.add((rel, qual))
     if len(rows) < 8:
         raise Untranslatable("collectives", f"only {len(rows)} functions with collective calls found")
     out = ["/-- per function: name, collective trace of the body specialised to the root, and to a worker rank -/",
